@@ -84,8 +84,8 @@ def run_demo(src_dir, agent_wt):
     lines = [re.sub(r'^\s*(ROOT|WT)=<[^>]*>\s*;\s*', '', l.strip()) for l in run if l.strip() and not l.strip().startswith('#')]
     cmd = ' && '.join(lines)
     cmd = cmd.replace(agent_wt, WT)
-    for placeholder in ('<repo>', '<REPO>', '<worktree>', '<WORKTREE>', '<WT>', '<ROOT>'):
-        cmd = cmd.replace(placeholder, WT)
+    cmd = re.sub(r'<[A-Za-z_ -]*(?:repo|root|worktree|wt|checkout)[A-Za-z_ -]*>', WT, cmd, flags=re.I)
+    cmd = cmd.replace(os.path.abspath(src_dir), work)
     env = dict(os.environ, ROOT=WT, WT=WT, WORKTREE=WT)
     p = sh(['bash', '-c', cmd], cwd=work, timeout=900, env=env)
     return p.returncode, p.stdout[-1500:]
@@ -103,20 +103,27 @@ def verify(argv):
         res['why'] = 'patch does not apply: ' + a.stdout[-500:]
         print(json.dumps(res, indent=1))
         return 1
+    # cheap part first: the demonstration must pass on the unpatched tree (also catches RUN.txt problems before the long test run)
+    sh(['git', '-C', WT, 'apply', '-R', os.path.join(os.path.abspath(src), 'patch.diff')])
+    ok2, msg2 = build_and_test(False)
+    rc0, out0 = run_demo(src, agent_wt)
+    res['demo_without_patch_exit'] = rc0
+    if not ok2 or rc0 != 0:
+        res['ok'] = False
+        res['demo_output_without_patch'] = (msg2 if not ok2 else out0)[-800:]
+        print(json.dumps(res, indent=1))
+        return 1
+    sh(['git', '-C', WT, 'apply', os.path.join(os.path.abspath(src), 'patch.diff')])
     ok, msg = build_and_test(True)
     res['with_patch_build_and_tests'] = msg
+    rc1, out1 = (None, '')
     if ok:
         rc1, out1 = run_demo(src, agent_wt)
         res['demo_with_patch_exit'] = rc1
     sh(['git', '-C', WT, 'checkout', '--', '.'])
-    if ok:
-        ok2, msg2 = build_and_test(False)
-        rc0, out0 = run_demo(src, agent_wt)
-        res['demo_without_patch_exit'] = rc0
-        ok = ok and ok2 and rc1 != 0 and rc0 == 0
-        if not ok:
-            res['demo_output_with_patch'] = out1[-600:]
-            res['demo_output_without_patch'] = out0[-600:]
+    ok = bool(ok and rc1 not in (None, 0))
+    if not ok:
+        res['demo_output_with_patch'] = out1[-600:]
     res['ok'] = bool(ok)
     print(json.dumps(res, indent=1))
     if ok:
